@@ -188,6 +188,12 @@ Lookup(prov, cache, c) ==
                                   sp |-> IF cache[c].frozen THEN cache[c].sp ELSE prov.mem[cache[c].m].data[c]]
                             ELSE CompScan(prov.mem, 1, c, cache)
 EmptyCache == [c \in {} |-> [m |-> 0, frozen |-> FALSE, sp |-> Junk]]
+\* plain lookups provider.get(category, default) for a sequence of categories (user code, print_active_tags): whatever
+\* the default is, the cache changes exactly as in a lookup of the matcher -- a found category is cached, a miss leaves
+\* no trace (the default is handed back, never remembered)
+RECURSIVE PokeCache(_,_,_)
+PokeCache(prov, names, cache) ==
+   IF names = <<>> THEN cache ELSE PokeCache(prov, Tail(names), Lookup(prov, cache, Head(names)).cache)
 
 \* ---------------------------------------------------------------- (b) is_tag_group_enabled / should_exclude_with
 GroupEnabled(sel, c, sp) ==
